@@ -302,6 +302,51 @@ def run():
     except RuntimeError as ex:
         ck.coverage["model_eval_error_path"] = str(ex)[-400:]
 
+    # the qualified wildcard `alias.*` (gen_projection.rs): model emit_qualified_star vs prqlc, the alias being every name
+    sdial = DIALECTS if ck.thorough else ["sqlite", "postgres", "mysql", "snowflake", "bigquery"]
+    sreqs = [{"src": "from %s = t | join u (==k) | select {%s.*, u.k}" % (bt(n), bt(n)), "target": "sql." + d} for n in names for d in sdial]
+    sans = harness("compile", sreqs)
+    try:
+        B = 100
+        HS = HEADER + "Definition ems (d : str) (p : list str) := emit_qualified_star_row ident_start ident_rest common_keywords dialect_keywords ident_dialects d p.\n"
+        sv = coq_eval(HS, ["map (fun s => ems %s [s]) [%s]" % (coq_codes(d), "; ".join(coq_codes(n) for n in names[i:i + B])) for d in sdial for i in range(0, len(names), B)])
+        smodel = {}
+        k = 0
+        for d in sdial:
+            out = []
+            for i in range(0, len(names), B):
+                out += sv[k]; k += 1
+            smodel[d] = out
+        k = 0
+        star_back = []
+        for ni, n in enumerate(names):
+            for d in sdial:
+                a = sans[k]; k += 1
+                if "ok" not in a:
+                    ck.stat("star-model", "rejected (alias spelled like a name in scope)" if "err" in a else "no answer")
+                    if "err" not in a:
+                        ck.violation("qualified wildcard of alias %r does not compile for %s" % (n, d), {"kind": "star-model", "name": n, "dialect": d, "answer": a})
+                    continue
+                ck.count("star-model", d + "|" + n)
+                m = smodel[d][ni]
+                mv = s_of(m[1]) if isinstance(m, tuple) and m[0] == "Some" else None
+                if mv is None or not a["ok"].startswith("SELECT " + mv + ", "):
+                    ck.violation("emit_qualified_star model differs from prqlc for alias %r on %s: model %r, prqlc %r" % (n, d, mv, a["ok"][:120]),
+                                 {"kind": "star-model", "name": n, "dialect": d, "model": mv, "impl": a["ok"]})
+                elif d in ("sqlite", "postgres", "mysql"):
+                    star_back.append((n, d, mv))
+        fk = {"postgres": "FoldLower", "sqlite": "FoldNone", "mysql": "FoldNone"}
+        qk = {"postgres": 34, "sqlite": 34, "mysql": 96}
+        B = 150
+        bv = [x for v in coq_eval(HEADER, ["[" + "; ".join("qualified_star_denotes %s %d %s" % (fk[d], qk[d], coq_codes(txt)) for _, d, txt in star_back[i:i + B]) + "]" for i in range(0, len(star_back), B)]) for x in v]
+        for (n, d, txt), m in zip(star_back, bv):
+            ck.count("star-denotes", d + "|" + txt)
+            mv = [s_of(x) for x in m[1]] if isinstance(m, tuple) and m[0] == "Some" else None
+            if mv != [n]:
+                ck.violation("on %s the text %r emitted for the wildcard of %r reads back as %r" % (d, txt, n, mv), {"kind": "star-denotes", "name": n, "dialect": d, "text": txt, "denotes": mv})
+    except RuntimeError as ex:
+        ck.coverage["model_eval_error_star"] = str(ex)[-400:]
+
     # keywords must come out quoted, in every letter case, for every dialect (redshift's own list: for redshift):
     # judged on prqlc's output alone (no model needed)
     qchar = {d: ("`" if d in ("bigquery", "clickhouse", "mysql") else '"') for d in DIALECTS}
